@@ -1,9 +1,9 @@
 (* C04 -- the dimension gate admits exactly dimensionally equivalent arguments and results.
    Statements about Model/Gate.v (tied to assert_equivalent_dimension and the validate_* decorators by the
    correspondence check of harness/props/c04.py).  Only `exact` here. *)
-From Coq Require Import List QArith ZArith Bool NArith.
+From Coq Require Import List QArith ZArith Bool NArith Permutation.
 From VP Require Import Base.Util Base.Dim Base.Val Model.CollectQ Model.Gate Model.QVec Proofs.DimProofs Proofs.GateProofs
-  Proofs.QVecProofs.
+  Proofs.QVecProofs Proofs.BindProofs.
 Import ListNotations.
 
 (* the argument passes exactly when the declaration is a wildcard (zero-valued unit expression / AnyDimension),
@@ -108,3 +108,22 @@ Theorem C04_qvec_failure_refuses : forall sys comps o qs i v qd k,
   exists k', qvec_ctor sys comps o = Err k'.
 Proof. exact qvec_first_failure_refuses. Qed.
 Print Assumptions C04_qvec_failure_refuses.
+
+(* positional versus keyword passing: wherever the positional prefix ends and in whatever order the remaining arguments are
+   given by keyword, the call is bound to the same values ... *)
+Theorem C04_bind_any_style : forall params vals n kw,
+  NoDup params -> length vals = length params -> (n <= length params)%nat ->
+  Permutation kw (combine (skipn n params) (skipn n vals)) ->
+  exists b, bind params (firstn n vals) kw = Some b /\
+            forall p, lookup p b = lookup p (combine params vals).
+Proof. exact bind_any_style. Qed.
+Print Assumptions C04_bind_any_style.
+
+(* ... and therefore gets the same verdict *)
+Theorem C04_call_style_irrelevant : forall params guards out vals n kw n' kw' ret,
+  NoDup params -> length vals = length params -> (n <= length params)%nat -> (n' <= length params)%nat ->
+  Permutation kw (combine (skipn n params) (skipn n vals)) ->
+  Permutation kw' (combine (skipn n' params) (skipn n' vals)) ->
+  guarded_call params guards out (firstn n vals) kw ret = guarded_call params guards out (firstn n' vals) kw' ret.
+Proof. exact guarded_call_style_irrelevant. Qed.
+Print Assumptions C04_call_style_irrelevant.
